@@ -48,7 +48,7 @@ RULE = ("(a) histories: every ordered pair and triple over a pool of %d state-pe
         " Also: the scheduler gates at Parser.read_token (every token fetch, also from the look-ahead queue); a fourth history configuration hands sources over as TokenScanner objects; the pool contains parses abandoned while look-ahead tokens are buffered; every document and pickle list returned earlier in a history is re-checked for later modification (G15); two-way interleaving sets above the tier's limit are sampled uniformly instead of enumerated (counted separately)." % len(POOL))
 ASSUMPTIONS = ["each concurrent parse uses its own Parser/TokenMatcher/AstBuilder instances (the library's classes are not documented as thread-safe objects; the property is about parsers working on different documents)",
                "results are compared after subtracting the id offset of the shared generator"]
-DECIDING = ["histories", "G13.evaluated", "schedules", "compile_purity_checks", "free_running_parses"]
+DECIDING = ["dialect_pairs_checked", "histories", "G13.evaluated", "schedules", "compile_purity_checks", "free_running_parses"]
 CONFIGS = ("none", "en", "fr", "en+scanner")
 
 
@@ -488,6 +488,82 @@ def run_free(spec, M):
         M.inconc("free-running threads: no context switch observed between gherkin lines")
 
 
+# ------------------------------------------------------------------ one matcher, two dialects
+
+def dialect_doc(d):
+    """A document in dialect d (language header) that uses every step keyword and every title keyword the dialect lists."""
+    from .. import dialects as dl
+    spec = dl.master()[d]
+    seen = set()
+    steps = []
+    for k, _ in dl.step_keywords(spec):
+        if k not in seen:
+            seen.add(k)
+            steps.append(k)
+    L = ["# language: " + d, spec["feature"][0] + ": f", "  " + spec["background"][0] + ":"]
+    L += ["    " + k + "b" for k in steps]
+    for k in spec["scenario"]:
+        L += ["  " + k + ": s", "    " + steps[0] + "x", "    " + steps[-1] + "y"]
+    for j, k in enumerate(spec["scenarioOutline"]):
+        L += ["  @t%d" % j, "  " + k + ": o <a>", "    " + steps[len(steps) // 2] + "<a>"]
+        for e in spec["examples"]:
+            L += ["    " + e + ":", "      | a |", "      | 1 |"]
+    for k in spec["rule"]:
+        L += ["  " + k + ": r", "    " + spec["background"][-1] + ":", "      " + steps[0] + "rb", "    " + spec["scenario"][-1] + ": rs", "      " + steps[-1] + "z"]
+    return "\n".join(L) + "\n"
+
+
+def colliding_pairs():
+    """Ordered pairs of dialects that list the same keyword string in different roles (where a table keyed by the keyword
+    alone, or one that outlives a dialect switch, gives the wrong answer)."""
+    from .. import dialects as dl
+    roles = {}
+    for d, spec in dl.master().items():
+        for role in list(dl.TITLE_ROLES) + list(dl.STEP_ROLES):
+            for k in spec[role]:
+                roles.setdefault(k, {}).setdefault(d, set()).add(role)
+    out = set()
+    for k, per in roles.items():
+        ds = sorted(per)
+        for a in ds:
+            for b in ds:
+                if a != b and per[a] != per[b]:
+                    out.add((a, b))
+    return sorted(out)
+
+
+def run_dialect_pairs(spec, M):
+    from .. import dialects as dl
+    names = sorted(dl.master())
+    pairs = colliding_pairs()
+    M.notes["colliding_dialect_pairs"] = len(pairs)
+    allp = [(a, b) for a in names for b in names if a != b]
+    if spec.get("sample"):
+        r = rng(spec["seed"], ID, "dialect_pairs")
+        extra = r.sample(allp, spec["sample"])
+        todo = pairs + [p for p in extra if p not in set(pairs)]
+    else:
+        todo = allp
+    todo = [p for k, p in enumerate(todo) if k % spec["parts"] == spec["part"]]
+    docs = {}
+    solo_res = {}
+    for a, b in todo:
+        for d in (a, b):
+            if d not in docs:
+                docs[d] = dialect_doc(d)
+                solo_res[d] = one_run(*fresh("en"), docs[d], False)
+        case = {"kind": "dialect_pair", "a": a, "b": b}
+        M.case(h64(["dialect_pair", a, b]))
+        M.count("dialect_pairs_checked")
+        M.hist("dialect_pair.second_outcome", solo_res[b][0])
+        env = fresh("en")
+        one_run(*env, docs[a], False, M, case=case)
+        got = one_run(*env, docs[b], False, M, case=case)
+        if got != solo_res[b]:
+            M.violation("C15.history", {"what": "document in dialect %s parsed after a document in dialect %s on the same Parser/TokenMatcher differs from a fresh parse" % (b, a),
+                                        "reused": short(got, 300), "fresh": short(solo_res[b], 300)}, case)
+
+
 def plan(tier, seed):
     q = tier == "quick"
     specs = []
@@ -498,6 +574,8 @@ def plan(tier, seed):
                           "long": 40 if q else 1500, "generated": 30 if q else 800, "seed": seed, "n": 1})
     specs.append({"family": "markdown", "seed": seed, "n": 1})
     specs.append({"family": "w0", "seed": seed, "n": 1})
+    for part in range(8):
+        specs.append({"family": "dialect_pairs", "part": part, "parts": 8, "sample": 800 if q else None, "seed": seed, "n": 1})
     small = ["a5", "b5", "c5", "d5", "e5", "a4", "b4", "c4", "d4", "e4"]
     pairs = [("a4", "b4"), ("c4", "e4"), ("d4", "b4"), ("a4", "c4"), ("e4", "c4"), ("c4", "b4")]
     if not q:
@@ -547,12 +625,21 @@ def run_shard(spec, M):
         run_repo_tests_under_monitors(M, {"G13"})
     elif f == "schedules":
         run_schedules(spec, M)
+    elif f == "dialect_pairs":
+        run_dialect_pairs(spec, M)
     elif f == "free":
         run_free(spec, M)
 
 
 def replay(case, M):
     k = case["kind"]
+    if k == "dialect_pair":
+        a, b = case["a"], case["b"]
+        env = fresh("en")
+        one_run(*env, dialect_doc(a), False, M, case=case)
+        if one_run(*env, dialect_doc(b), False, M, case=case) != one_run(*fresh("en"), dialect_doc(b), False):
+            M.violation("C15.history", {"what": "document in dialect %s parsed after a document in dialect %s on the same Parser/TokenMatcher differs from a fresh parse" % (b, a)}, case)
+        return
     if k == "history":
         check_history(case["config"], tuple(case["history"]), tuple(case["stops"]) or (False,) * len(case["history"]), M)
     elif k == "gen":
